@@ -4,9 +4,12 @@ import (
 	"encoding/json"
 	"fmt"
 	"os"
+	"sort"
+	"strings"
 	"time"
 
 	"verif/h/codecx"
+	"verif/h/crashx"
 	"verif/h/dmgx"
 	"verif/h/eng"
 	"verif/h/seqx"
@@ -58,6 +61,9 @@ func runCheck(prop, tier string) int {
 	}
 	if prop == "C07" || prop == "C14" {
 		return runDmg(prop, tier)
+	}
+	if prop == "C05" || prop == "C06" {
+		return runCrash(prop, tier)
 	}
 	fmt.Fprintln(os.Stderr, "no check for", prop)
 	return 2
@@ -133,6 +139,9 @@ func runWorker(engine string) {
 	case "seqx":
 		eng.ServeWorker(seqx.Worker)
 		seqx.CleanupWorker()
+	case "crashx":
+		eng.ServeWorker(crashx.Worker)
+		crashx.CleanupWorker()
 	case "dmgx":
 		eng.ServeWorker(dmgx.Worker)
 		dmgx.CleanupWorker()
@@ -246,5 +255,47 @@ func runDmg(prop, tier string) int {
 		r.Cov["rule"] = "three-segment V2 logs with both indexes; damage applied to one .log file at a time: every single-bit flip, every start x length 1..8 overwrite with zeros/0xFF/pseudo-random/copy of preceding bytes, truncation to every length, every zero-filled suffix; after each a fresh Open and the full read sweep (Consume at all offsets x 3 counts, Get, GetByKey, ConsumeByKey, GetByTime); distinct_nontrivial counts distinct (open result, #calls failed, #calls succeeded) classes"
 	}
 	r.Assumptions = []string{"index files intact for C14 (the property's own fault model)", "trusted: the independent reference parser (cross-checked against klevdb by C13)", "allocation clause: bytes allocated per call measured with runtime/metrics in a single-threaded worker, threshold 4 x file size + 1 MiB"}
+	return r.Finish()
+}
+
+func runCrash(prop, tier string) int {
+	r := eng.NewRun(prop, tier, "fault_enumeration", "crashx")
+	pool := eng.NewPool("crashx")
+	pool.Env = []string{"VERIF_CRASH_PROP=" + prop}
+	pool.Guard = 10 * time.Minute
+	pool.Start()
+	defer pool.Close()
+	st := &seqx.Stats{FPs: map[uint64]struct{}{}}
+	f := seqx.Families["crash"]
+	seqx.Explore(r, pool, f, tier, time.Now().Add(tierBudget(tier)), st)
+	classes := 0
+	var classList []string
+	for k := range st.Extra {
+		if strings.HasPrefix(k, "cp:"+prop+" ") {
+			classes++
+			classList = append(classList, strings.TrimPrefix(k, "cp:"+prop+" "))
+		}
+	}
+	sort.Strings(classList)
+	images := st.Extra["images"] + st.Extra["depth2_images"]
+	if prop == "C06" {
+		images = st.Extra["tail_loss_images"]
+	}
+	r.Cov["evaluations"] = images
+	r.Cov["distinct_nontrivial"] = classes
+	r.Cov["crash_point_classes"] = classList
+	r.Cov["states"] = st.States
+	r.Cov["transitions"] = st.Transitions
+	r.Cov["max_depth_completed"] = st.Depth
+	r.Cov["traces_validated_against_impl"] = st.Extra["journals_validated"]
+	for _, k := range []string{"images", "distinct_images", "torn_variants", "depth2_images", "tail_loss_images", "power_loss_points", "cache_hits", "cache_misses"} {
+		r.Cov[k] = st.Extra[k]
+	}
+	if prop == "C05" {
+		r.Cov["rule"] = "BFS over histories of the crash family (publish with rollover, every single delete, whole-segment deletes, Sync, reopen plain/Recover/eager migration, Migrate) for 4 configurations; for the last letter of every transition the file-system journal recorded underneath the real code yields one crash image per event prefix plus torn variants of every record/index append (every byte up to 48-byte appends, boundary set beyond), and for short histories every event prefix and torn append of the recovering Open itself (depth 2); every image is materialised, opened with Recover, observed through all views, recovered again, appended to and checked; distinct_nontrivial counts distinct (call, file-system step, after/torn) crash-point classes reached; the journal is validated against the real directory after every transition"
+	} else {
+		r.Cov["rule"] = "same histories; at every event point of the last letter every combination of tail-loss cuts of every file with unsynced bytes (cut candidates: fsynced length, every append boundary since, torn lengths inside the last append, current length; 8-byte headers atomic) is materialised, opened with Recover and compared with the acknowledged-durable prefix (Sync results, Publish results under AutoSync, Close); distinct_nontrivial counts distinct (call, file-system step) points"
+	}
+	r.Assumptions = []string{"fault model as fixed by the property: process crash keeps the page cache; power loss cuts each file independently to a length between its last fsynced length and its current length; directory operations are durable in program order; 8-byte file headers are atomic", "trusted: the os shim's journal (validated against the real directory after every transition), tmpfs"}
 	return r.Finish()
 }
